@@ -24,7 +24,13 @@ from props import dykstra_common as dc
 
 MODULE = "DfolsVerif.Properties.C09"
 BUILD_TARGETS = ["DfolsVerif.Driver.DykstraDrv"]
+def pre_build(ctx):
+    import gen_kernels
+    ctx.cov["translated_dykstra"] = gen_kernels.regenerate_dykstra(ctx)
+
+
 THEOREMS = [
+    "Dfols.C09.gen_dykstra",
     "Dfols.C09.C09_feasible",
     "Dfols.C09.C09_box_exact",
     "Dfols.C09.C09_first_eval",
@@ -34,6 +40,7 @@ THEOREMS = [
 ]
 LEVEL = "proof"
 TRUSTED_EXTRA = [
+    "AST-to-Lean translator harness/gen_kernels.py (translate_dykstra): the inner-loop body and pball as Ops terms, the loop skeleton and pbox as canonical text",
     "trace level: that every real run is an accepted trace of Book/ProjTrace.lean is checked on sampled runs (trace correspondence), not proved about solver.py/controller.py",
     "kernel level: C09_feasible is exact arithmetic; the float gap is watched by the search with sqrt(p*tol)(1+1e-9)+1e-15",
     "the user's projectors are opaque maps with P_i v in C_i; the harness supplies exact ball/half-space/box projectors",
@@ -109,6 +116,15 @@ def gen_problem(rng):
         restarts = "hard"
         params["restarts.use_restarts"] = True
         params["restarts.use_soft_restarts"] = False
+    if rng.random() < 0.2:
+        # extra regression steps after successful iterations (geometry steps, or random 'momentum' steps):
+        # further sites that evaluate points and must route them through the projection
+        params["regression.num_extra_steps"] = int(rng.integers(1, 3))
+        if rng.random() < 0.6:
+            params["regression.momentum_extra_steps"] = True
+    if restarts == "soft" and rng.random() < 0.3:
+        params["restarts.increase_npt"] = True
+        params["restarts.max_npt"] = n + 1 + int(rng.integers(1, 3))
     if rng.random() < 0.3:
         params["dykstra.d_tol"] = float([1e-6, 1e-8, 1e-12][int(rng.integers(0, 3))])
     if rng.random() < 0.2:
